@@ -1,5 +1,7 @@
 mod case;
 mod driver;
+mod e2;
+mod e2drv;
 mod gen;
 mod interp;
 mod model;
@@ -31,9 +33,19 @@ fn main() {
         .unwrap_or_else(|| "quick".into());
     let tier = if tier == "thorough" { "thorough" } else { "quick" };
     match cmd {
+        "crashee" => {
+            let case = arg(&args, "--case").expect("--case");
+            let root = arg(&args, "--root").expect("--root");
+            let marker = arg(&args, "--marker").expect("--marker");
+            let states = arg(&args, "--states");
+            std::process::exit(e2::crashee_main(&case, &root, &marker, states.as_deref()));
+        }
         "check" => {
             if let Some(def) = props::e1(&id) {
                 std::process::exit(driver::check_e1(&def, tier, seed));
+            }
+            if let Some(def) = e2drv::e2(&id) {
+                std::process::exit(e2drv::check_e2(&def, tier, seed));
             }
             eprintln!("unknown property {id}");
             std::process::exit(2);
@@ -53,10 +65,30 @@ fn main() {
                 std::fs::write(out, serde_json::to_string(&o).unwrap()).unwrap();
                 return;
             }
+            if let Some(def) = e2drv::e2(&id) {
+                let o = e2drv::shard_e2(&def, tier, seed, shard, cases);
+                std::fs::write(out, serde_json::to_string(&o).unwrap()).unwrap();
+                return;
+            }
             std::process::exit(2);
         }
         "replay" => {
             let file = args.get(3).expect("file");
+            if let Some(def) = e2drv::e2(&id) {
+                let s = std::fs::read_to_string(file).expect("readable replay file");
+                let rp: e2drv::E2Replay = serde_json::from_str(&s).expect("E2 replay file");
+                match e2drv::replay_e2(&def, &rp) {
+                    Some(msg) => {
+                        println!("replay fails: {msg}");
+                        println!("VIOLATION property={id} replay={file}");
+                        std::process::exit(1);
+                    }
+                    None => {
+                        println!("replay passes");
+                        std::process::exit(0);
+                    }
+                }
+            }
             let v = driver::load_case_file(std::path::Path::new(file)).expect("readable replay file");
             if let Some(def) = props::e1(&id) {
                 let case: case::Case = serde_json::from_value(v).expect("case");
